@@ -361,6 +361,9 @@ func runC17(args []string) error {
 		{"good-ca CN=clientx (suffix)", mkc(good, "clientx", []string{"clientx.local"}), true, true, "clientx", false},
 		{"good-ca CN= (empty) SAN=client.local", mkc(good, "", []string{"client.local"}), true, true, "", true},
 		{"good-ca CN=client SAN=other.local", mkc(good, "client", []string{"other.local"}), true, true, "client", false},
+		{"good-ca CN=client.local (the allowed hostname as CN) SAN=other.local", mkc(good, "client.local", []string{"other.local"}), true, true, "client.local", false},
+		{"good-ca CN=client.local (the allowed hostname as CN) no SAN", mkc(good, "client.local", nil), true, true, "client.local", false},
+		{"good-ca CN=CLIENT.LOCAL SAN=other.local", mkc(good, "CLIENT.LOCAL", []string{"other.local"}), true, true, "CLIENT.LOCAL", false},
 		{"evil-ca CN=client SAN=client.local", mkc(evil, "client", []string{"client.local"}), true, false, "client", true},
 		{"self-signed CN=client", &ss, true, false, "client", false},
 	}
